@@ -53,7 +53,16 @@ ASSUMPTIONS = ['asyncio FIFO callback order; loopback TCP and UNIX sockets '
                'fake transports of the socks family implement the asyncio '
                'transport contract (write/write_eof/close/get_extra_info)',
                'both SSH endpoints are asyncssh except in the interop family '
-               '(OpenSSH 9.2 client)']
+               '(OpenSSH 9.2 client); there the bounded-time clauses also '
+               'rely on a fresh connection relayed through the ssh process '
+               'after the deadline showing that the process kept running',
+               'SSHConnection._channels / _transport (private) are read to '
+               'see that a finished relay left no channel behind; '
+               '/proc/self/net/{tcp,tcp6,unix} and /proc/self/fd describe '
+               'this process\'s sockets',
+               'asyncio (3.12) Server.wait_closed() also waits for accepted '
+               'connections, so listeners are awaited only after the relayed '
+               'connections ended']
 
 ChannelOpenError = asyncssh.ChannelOpenError
 
@@ -1324,6 +1333,10 @@ class SockEnd(_End, asyncio.Protocol):
     def connection_made(self, transport):
         self.tr = transport
         self.connected = True
+        sock = transport.get_extra_info('socket')
+
+        if sock is not None and sock.family == socket.AF_INET:
+            sock.setsockopt(socket.IPPROTO_TCP, socket.TCP_NODELAY, 1)
 
         if self.banner:
             transport.write(self.banner)
@@ -1548,6 +1561,7 @@ class Rig:
         self.proxy: Any = None
         self.proxy_pairs: List[Any] = []
         self.procs: List[subprocess.Popen] = []
+        self.extra_probe: Optional[Callable[[], Any]] = None
         self.loop_errors: List[Any] = []
         self.loop.set_exception_handler(
             lambda loop, ctx: self.loop_errors.append(ctx))
@@ -1674,6 +1688,9 @@ class Rig:
         """A full round trip through client connection, TCP, server
         connection and back (or, once the SSH connection is gone, a few
         passes through the loop and the kernel)"""
+
+        if self.extra_probe is not None:
+            await self.extra_probe()
 
         chan = self.probe_chan
 
@@ -2655,6 +2672,42 @@ async def interop_scenario(rig: Rig, case, labels) -> bool:
         ver = '4a' if mode == 'D4' else '5h'
         a.write(b''.join(socks_request(ver, bwhere)))
 
+    marker = b'\xf0PRB'
+
+    async def through_ssh():
+        """The ssh process is a scheduling domain of its own: a fresh
+        connection relayed through it after the deadline shows that it has
+        been running since"""
+
+        if proc.poll() is not None:
+            return
+
+        n = sum(1 for e in rig.b_ends if bytes(e.received[:4]) == marker)
+        p = await rig.connect_a(awhere, 'P')
+
+        if ver:
+            p.write(b''.join(socks_request(ver, bwhere)))
+
+        p.write(marker)
+        deadline = rig.loop.time() + HARNESS_TIMEOUT
+
+        while sum(1 for e in rig.b_ends
+                  if bytes(e.received[:4]) == marker) <= n:
+            if rig.loop.time() > deadline or proc.poll() is not None:
+                raise HarnessError('C20 interop: probe connection through '
+                                   'ssh not relayed')
+            await asyncio.sleep(0.01)
+
+        p.close()
+
+    rig.extra_probe = through_ssh
+
+    def main_b():
+        for e in rig.b_ends:
+            if e.received and bytes(e.received[:1]) != marker[:1]:
+                return e
+        return None
+
     size = case['size']
     a.write(pat(1, 0, size))
     a.sent = size
@@ -2666,14 +2719,14 @@ async def interop_scenario(rig: Rig, case, labels) -> bool:
                          'no SOCKS reply through ssh -D')
         skip = socks_reply_len(ver, a.received) or 0
 
-    await rig.expect(lambda: rig.b_ends and
-                     len(rig.b_ends[0].received) >= size, 'relay',
+    await rig.expect(lambda: main_b() is not None and
+                     len(main_b().received) >= size, 'relay',
                      'interop:data-missing:' + mode,
                      lambda: 'ssh %s: A->B %s' %
                      (mode, _diff(pat(1, 0, size),
-                                  bytes(rig.b_ends[0].received)
-                                  if rig.b_ends else b'')))
-    b = rig.b_ends[0]
+                                  bytes(main_b().received)
+                                  if main_b() else b'')))
+    b = main_b()
     b.write(pat(2, case['banner'], case['back']))
     b.sent = case['banner'] + case['back']
 
@@ -2719,7 +2772,14 @@ async def interop_scenario(rig: Rig, case, labels) -> bool:
         raise HarnessError('C20 interop: ssh exited early: ' +
                            proc.stderr.read().decode('utf-8', 'replace'))
 
+    rig.extra_probe = None
     proc.terminate()
+    deadline = rig.loop.time() + HARNESS_TIMEOUT
+
+    while proc.poll() is None:
+        if rig.loop.time() > deadline:
+            raise HarnessError('C20 interop: ssh ignores SIGTERM')
+        await asyncio.sleep(0.01)
 
     # the ssh client is gone: the server releases what it opened for it
     await rig.expect(lambda: rig.sconns and all(
@@ -2766,7 +2826,7 @@ def interop_cases(tier: str):
 
 FAMILIES = [
     Family('socks', run_socks, strategy=socks_strategy,
-           budget={'quick': 6000, 'thorough': 200000},
+           budget={'quick': 8000, 'thorough': 200000},
            required={'all': ['socks4', 'socks4a', 'socks5-ipv4',
                              'socks5-host', 'socks5-ipv6', 'reject',
                              'incomplete', 'early-data', 'split-request',
@@ -2774,7 +2834,7 @@ FAMILIES = [
            shards={'quick': 8, 'thorough': 16},
            timeout_is_violation=True, case_timeout=20),
     Family('permissions', run_perm, strategy=perm_strategy,
-           budget={'quick': 700, 'thorough': 12000},
+           budget={'quick': 1000, 'thorough': 12000},
            required={'all': ['auth-password', 'auth-key', 'auth-cert',
                              'tcp-allowed', 'tcp-denied', 'unix-allowed',
                              'unix-denied', 'listen-allowed', 'listen-denied',
@@ -2793,7 +2853,7 @@ FAMILIES = [
                                      'socks-pipelined', 'flood-slow']},
            case_timeout=120),
     Family('release', run_release, strategy=release_strategy,
-           budget={'quick': 120, 'thorough': 2000},
+           budget={'quick': 160, 'thorough': 2000},
            required={'all': ['rel-' + k for k in REL_KINDS] +
                      ['active', 'explicit-close', 'survives-listener-close',
                       'end-close', 'end-abort', 'end-sabort', 'end-cut']},
